@@ -69,8 +69,12 @@ Struct(c, cs, i) ==
                     /\ ~EqU(Nq(Fld(v, "AROONOSC")), Sub(Nq(Fld(v, "AROONU")), Nq(Fld(v, "AROOND"))), rv, 2)
               THEN "struct_identity" ELSE "ok"
        [] k = "ADX" ->
-            IF InRange(Fld(v, "ADX"), 0, 100, rv) /\ InRange(Fld(v, "DM_Plus"), 0, 100, rv)
-               /\ InRange(Fld(v, "DM_Neg"), 0, 100, rv) THEN "ok" ELSE "struct_range"
+            \* C10 names ADX itself; the two directional lines are only required to be non-negative: the
+            \* library seeds the smoothed movement one candle later than the true range, so right after a
+            \* flat opening +DI can exceed 100 for a few candles (observed: 110; the definitional column
+            \* in Defs.tla agrees with that seeding)
+            IF InRange(Fld(v, "ADX"), 0, 100, rv) /\ InRange(Fld(v, "DM_Plus"), 0, 1000, rv)
+               /\ InRange(Fld(v, "DM_Neg"), 0, 1000, rv) THEN "ok" ELSE "struct_range"
        [] k = "TSI" -> IF InRange(v, -100, 100, rv) THEN "ok" ELSE "struct_range"
        [] k = "TR" ->
             IF v.t = "q" /\ LeU(Sub(cs[i].h, cs[i].l), Nq(v), rv, 1) /\ LeU(Zero, Nq(v), rv, 0)
